@@ -127,6 +127,20 @@ def observe(real):
     return ev
 
 
+def _has_alias_or_custom(s):
+    if s.get("t") in ("alias", "custom"):
+        return True
+    if s.get("t") == "list":
+        subs = list(s["type"]) + [x for el in s["elems"] for x in el if x.get("k") != "ellipsis"]
+    elif s.get("t") == "dict":
+        subs = [p["val"] for ks in s["keys"] for p in ks if p["val"].get("k") != "ellipsis"]
+    elif s.get("t") == "any":
+        subs = [x for ts in s["types"] for x in ts]
+    else:
+        subs = []
+    return any(_has_alias_or_custom(x) for x in subs)
+
+
 def describe(e):
     return {"schema": e["s"], "text": e.get("text"), "stable": e["stable"], "eval_exc": e["eval_exc"],
             "eq": e["eq"], "same_repr": e["same_repr"], "parsed": e["parsed"]}
@@ -174,9 +188,27 @@ def main(chk):
         events.append(ev)
         chk.count("type_" + s["t"])
         chk.count("parsed" if ev["parsed"] else "not_parsed")
+    # random declarations nested 3-4 levels (the real `random` drives the shapes; aliases and custom
+    # types are outside the property): what the small universe cannot hold -- long key lists, lists of
+    # dicts of unions, random regex programs inside containers
+    from . import deep
+    ndeep = 15000 if quick else 120000
+    made = 0
+    for i in range(ndeep * 4):
+        if made >= ndeep:
+            break
+        b = deep.build(chk.rng, 3 + (i % 4 == 0) + (0 if quick else (i % 8 == 0)))
+        if b is None or _has_alias_or_custom(b[0]):
+            continue
+        s, real = b
+        ev = observe(real)
+        ev.update({"id": len(events) + 1, "s": s, "raw": False})
+        events.append(ev)
+        made += 1
+        chk.count("deep_random_schemas")
+        chk.count("parsed" if ev["parsed"] else "not_parsed")
     # real binary floats (the model's numbers are exact): the printed text must still evaluate to an
     # equal schema that prints the same; the abstract schema is a stand-in
-    from . import deep
     dummy = {"t": "float", "value": [], "min": [], "max": [], "precision": []}
     for text, real in deep.real_float_schemas():
         ev = observe(real)
